@@ -183,6 +183,26 @@ Proof.
   exact t_root_cache_visible.
 Qed.
 
+(* F29 (known finding): the JavaScript VM pool is visible for scripts that create GLOBAL
+   BINDINGS (top-level let/const/class/var/function, implicit globals, mutated built-ins):
+   execProgram deletes only the call's args from the pooled VM.  The miniature script
+   `var c = (typeof c === 'undefined' ? 0 : c) + 1; c` (Proofs/PipelineInst.v geval) meets the
+   memo and ID-renaming hypotheses, and the results differ between JS caching on (1,2,3) and off
+   (1,1,1).  caches_invisible / caches_invisible_js hold under the F29 guard only: in C20's
+   Model/Js.v a script is a function of the globals it can see and cannot write them (excluded
+   "by type"; expressing a writing script there would change that model's script type, so the
+   refutation is given on the miniature and on the Go code: replays/corpus/C13/f29_*.json). *)
+Theorem caches_invisible_refuted_globals :
+  (forall s w, fst (geval true gc0 s w) = fst (geval false gc0 s w)) /\
+  (forall (f : N -> N) m s w, fst (geval m gc0 s (w_rename f w)) = fst (geval m gc0 s w)) /\
+  exists us,
+    run_env tschema bytes gcache geval (fun v => Some v) true (fun b => b) inner_text hg_on OnRecord [] us <>
+    run_env tschema bytes gcache geval (fun v => Some v) true (fun b => b) inner_text hg_off OnRecord [] us.
+Proof.
+  exact (conj g_cache_transparent (conj g_id_renaming
+           (ex_intro _ [URec (leaf x31); URec (leaf x32); URec (leaf x33)] g_pool_visible))).
+Qed.
+
 (* Non-vacuity: the hypotheses are met by a concrete evaluator with an ID-keyed node-JSON cache
    that is consulted and filled (Proofs/PipelineInst.v), and three different hidden states (fresh
    process; warmed-up process with pooled nodes, a sync.Pool schedule, memo off, a filled cache;
